@@ -12,8 +12,8 @@ import (
 	"path/filepath"
 	"runtime/debug"
 	"sort"
-	"strings"
 	"strconv"
+	"strings"
 	"sync"
 	"testing"
 	"time"
